@@ -214,7 +214,8 @@ def check_stats(case, result, rec, log, cap, scheme=None):
                 if p.non_negative:
                     # mapped back from log space; the cap |value| is admitted only where the library documents it
                     # (log-space error not below |log value|), with a 1e-9 band around the switch
-                    lv = abs(np.log(p.value)) if p.value > 0 else 0.0
+                    # (the library's log transform maps a value of exactly 1 to log(1 + 1e-10), not 0: its threshold there)
+                    lv = abs(np.log(p.value + (1e-10 if p.value == 1 else 0.0))) if p.value > 0 else 0.0
                     # (at the switch itself, e == |log value| - e.g. a zero error of a parameter equal to 1 - both are admitted)
                     adm = ([p.value * (np.exp(e) - 1.0)] if e <= lv * (1 + 1e-9) else []) + ([abs(p.value)] if e >= lv * (1 - 1e-9) else [])
                 else:
